@@ -33,6 +33,10 @@ type fakeChain struct {
 	feed     event.Feed
 	proc     core.Processor
 	stateErr bool
+	// queued head changes (mreset): one state per block, keyed by the header's state root; other roots -> statedb
+	states  map[common.Hash]*state.StateDB
+	gate    chan struct{} // when set, the next StateAt call signals `entered` and blocks until the gate is closed
+	entered chan struct{}
 }
 
 func (bc *fakeChain) Processor() core.Processor  { return bc.proc }
@@ -44,9 +48,17 @@ func (bc *fakeChain) GetBlock(hash common.Hash, number uint64) *types.Block {
 	}
 	return b
 }
-func (bc *fakeChain) StateAt(common.Hash, common.Hash, common.Hash) (*state.StateDB, error) {
+func (bc *fakeChain) StateAt(root, _, _ common.Hash) (*state.StateDB, error) {
 	if bc.stateErr {
 		return nil, errors.New("verif: state unavailable")
+	}
+	if g := bc.gate; g != nil {
+		bc.gate = nil
+		bc.entered <- struct{}{}
+		<-g
+	}
+	if st, ok := bc.states[root]; ok {
+		return st, nil
 	}
 	return bc.statedb, nil
 }
@@ -55,7 +67,11 @@ func (bc *fakeChain) SubscribeChainHeadEvent(ch chan<- core.ChainHeadEvent) even
 }
 
 func (bc *fakeChain) mkBlock(number uint64, parent common.Hash, gasLimit uint64, salt uint64, txs []*types.Transaction) *types.Block {
-	h := &types.Header{Number: new(big.Int).SetUint64(number), ParentHash: parent, GasLimit: gasLimit, Time: salt}
+	return bc.mkBlockRoot(number, parent, gasLimit, salt, common.Hash{}, txs)
+}
+
+func (bc *fakeChain) mkBlockRoot(number uint64, parent common.Hash, gasLimit uint64, salt uint64, root common.Hash, txs []*types.Transaction) *types.Block {
+	h := &types.Header{Number: new(big.Int).SetUint64(number), ParentHash: parent, GasLimit: gasLimit, Time: salt, Root: root}
 	b := types.NewBlock(h, txs, nil)
 	bc.blocks[b.Hash()] = b
 	return b
@@ -108,20 +124,21 @@ type poolCfg struct {
 }
 
 type world struct {
-	cfg     poolCfg
-	keys    []*ecdsa.PrivateKey
-	addrs   []common.Address
-	aidx    map[common.Address]int
-	chain   *fakeChain
-	pool    *core.TxPool
-	signer  types.Signer
-	txs     map[uint64]*types.Transaction // id -> real transaction
-	desc    map[uint64]mtx
-	ids     map[common.Hash]uint64
-	salt    uint64
-	panics  []string
-	scr     *vh.RNG            // drives the caller-side edits of returned views (seeded from the case's init line)
-	foreign *types.Transaction // a valid transaction the pool never saw, written into returned slices
+	cfg      poolCfg
+	keys     []*ecdsa.PrivateKey
+	addrs    []common.Address
+	aidx     map[common.Address]int
+	chain    *fakeChain
+	pool     *core.TxPool
+	signer   types.Signer
+	txs      map[uint64]*types.Transaction // id -> real transaction
+	desc     map[uint64]mtx
+	ids      map[common.Hash]uint64
+	salt     uint64
+	panics   []string
+	mrA, mrC [][3]uint64        // full account states of the first and the last head of the latest mreset (for the model)
+	scr      *vh.RNG            // drives the caller-side edits of returned views (seeded from the case's init line)
+	foreign  *types.Transaction // a valid transaction the pool never saw, written into returned slices
 }
 
 var keyCache []*ecdsa.PrivateKey
@@ -153,7 +170,7 @@ func newWorld(cfg poolCfg, accts [][2]uint64) (*world, error) {
 		statedb.SetNonce(addr, a[0])
 		statedb.SetBalance(addr, new(big.Int).SetUint64(a[1]))
 	}
-	w.chain = &fakeChain{statedb: statedb, blocks: map[common.Hash]*types.Block{}, proc: core.NewStateProcessor(nil, nil)}
+	w.chain = &fakeChain{statedb: statedb, blocks: map[common.Hash]*types.Block{}, states: map[common.Hash]*state.StateDB{}, proc: core.NewStateProcessor(nil, nil)}
 	w.chain.head = w.chain.mkBlock(100, common.Hash{}, cfg.gasLimit, 0, nil)
 	pc := core.TxPoolConfig{Journal: "", Rejournal: time.Hour, PriceLimit: cfg.priceLimit, PriceBump: cfg.bump,
 		AccountSlots: cfg.as, GlobalSlots: cfg.gs, AccountQueue: cfg.aq, GlobalQueue: cfg.gq, Lifetime: 3 * time.Hour}
